@@ -1066,6 +1066,11 @@ func (app *BaseApp) runTx(mode runTxMode, txBytes []byte, tx sdk.Tx) (result sdk
 	// Create a new context based off of the existing context with a cache wrapped
 	// multi-store in case message processing fails.
 	runMsgCtx, newMS := app.txContext(ctx, txBytes) // todo edit here!!!
+	if mode == runTxModeSimulate {
+		// txContext hands out the live stores; a simulation must run its message on a
+		// cache-wrapped copy that is never written, or it would change consensus state.
+		runMsgCtx, _ = app.cacheTxContext(ctx, txBytes)
+	}
 	result = app.runMsg(runMsgCtx, msgs, mode, signer)
 	result.GasWanted = gasWanted
 
